@@ -33,6 +33,7 @@ class TNode(Node):
 class Pickler:
     """stand-in for dill.Pickler: pickles a Node graph the way the recursive pickler does (open, memoize, children, close;
     a reference for an object that is already memoised)"""
+    dispatch = {}       # the per-type save functions of the real pickler: not consulted by this stand-in
     def __init__(self, file, **kwargs):
         self.file = file
         self.proto = kwargs.get("protocol") or 4
